@@ -53,9 +53,15 @@ pub fn judge(seq: &[usize]) -> Eval {
 fn judge_packets(seq: &[usize], packets: Vec<Vec<u8>>) -> Eval {
     let n = packets.len();
     let (base, base_snap, _) = run_partition(&packets, 0);
+    let mut tags = vec![];
     if base.contains("Error(") {
-        // an erroring packet legitimately swallows the rest of its buffer: outside "self-delimiting"
-        return Eval { key: 0, transitions: n as u64, issues: vec![], tags: vec!["out-of-domain:one-per-call-run-has-an-error"] };
+        // an erroring packet legitimately swallows the rest of its buffer: outside "self-delimiting" - unless it is the
+        // LAST packet of the sequence (nothing follows it that could be swallowed)
+        let (head, _, _) = run_partition(&packets[..n - 1], 0);
+        if n < 2 || head.contains("Error(") {
+            return Eval { key: 0, transitions: n as u64, issues: vec![], tags: vec!["out-of-domain:one-per-call-run-has-an-error"] };
+        }
+        tags.push("failing-packet-last");
     }
     let mut issues = vec![];
     let mut transitions = n as u64;
@@ -71,7 +77,6 @@ fn judge_packets(seq: &[usize], packets: Vec<Vec<u8>>) -> Eval {
             break;
         }
     }
-    let mut tags = vec![];
     if seq.windows(2).any(|w| (w[0] == 3 && w[1] == 4) || (w[0] == 7 && w[1] == 8) || (w[0] == 10 && w[1] == 8) || (w[0] == 15 && w[1] == 4)) {
         tags.push("early-packet-defines-template-a-later-one-needs");
     }
@@ -82,10 +87,10 @@ pub fn spaces(tier: &str) -> Vec<Box<dyn Space>> {
     let thorough = tier == "thorough";
     let mut v: Vec<Box<dyn Space>> = vec![];
     let maxlen = 5;
-    let m = menu::SELF_DELIMITING;
+    let m = menu::SELF_DELIMITING + 1; // + V9 data for an absent id: a self-delimiting packet whose result is an error
     let nl = list_count(m, maxlen);
     v.push(space(
-        &format!("all-sequences<={}-over-17-packet-menu x all-partitions", maxlen),
+        &format!("all-sequences<={}-over-18-packet-menu x all-partitions", maxlen),
         nl,
         move |i| judge(&list_at(m, maxlen, i)),
         move |i| {
@@ -176,11 +181,11 @@ pub fn run(tier: &str) -> i32 {
         prop: "C11".into(),
         tier: tier.into(),
         level: "model_checking",
-        rule: "every sequence of 1..=5 packets (thorough: also every sequence of 6 over a 10-packet sub-menu) over the 17-packet self-delimiting menu (V5x0, V5x2, V7x1, V9-T, V9-D, V9-TD, V9-OT+OD, IPFIX-T, IPFIX-D, IPFIX-TD, IPFIX-T', IPFIX-D(absent id), IPFIX header only, V9 count 0, V7x0, V9 and IPFIX data-then-redefinition), each under ALL 2^(n-1) partitions into consecutive calls on a fresh parser; sequences whose one-per-call run contains an error element are outside the domain (tagged, not judged); plus every sequence of <= 4 packets over an 8-packet large-cache menu (1 100 V9 templates in one flowset, 1 100 IPFIX template sets, 1 100 V9 options templates, data for the first and last id, V5) under all partitions, and maximal chains up to the datagram limit (all-in-one vs one-per-call). Oracle: canonical dump of the concatenated results and final cache snapshot identical to one-packet-per-call delivery. A sequence is distinct by the hash of its one-per-call result".into(),
+        rule: "every sequence of 1..=5 packets (thorough: also every sequence of 6 over a 10-packet sub-menu) over the 17-packet self-delimiting menu (V5x0, V5x2, V7x1, V9-T, V9-D, V9-TD, V9-OT+OD, IPFIX-T, IPFIX-D, IPFIX-TD, IPFIX-T', IPFIX-D(absent id), IPFIX header only, V9 count 0, V7x0, V9 and IPFIX data-then-redefinition), each under ALL 2^(n-1) partitions into consecutive calls on a fresh parser; sequences whose one-per-call run contains an error element are outside the domain (tagged, not judged) unless the failing packet is the last one of the sequence; plus every sequence of <= 4 packets over an 8-packet large-cache menu (1 100 V9 templates in one flowset, 1 100 IPFIX template sets, 1 100 V9 options templates, data for the first and last id, V5) under all partitions, and maximal chains up to the datagram limit (all-in-one vs one-per-call). Oracle: canonical dump of the concatenated results and final cache snapshot identical to one-packet-per-call delivery. A sequence is distinct by the hash of its one-per-call result".into(),
         bounds: json!({"sequence_len": if thorough {"5 over 17 packets + 6 over 10 packets"} else {"5 over 17 packets"}, "menu": menu::NAMES[..menu::SELF_DELIMITING].to_vec(), "partitions": "all"}),
         assumptions: vec![],
         trusted_base: vec!["c11::judge".into()],
-        required_tags: vec!["early-packet-defines-template-a-later-one-needs", "out-of-domain:one-per-call-run-has-an-error", "data-under-a-cache-of-more-than-1024-definitions"],
+        required_tags: vec!["early-packet-defines-template-a-later-one-needs", "out-of-domain:one-per-call-run-has-an-error", "data-under-a-cache-of-more-than-1024-definitions", "failing-packet-last"],
         extra: Default::default(),
     };
     run_report(rep, spaces(tier))
